@@ -655,11 +655,52 @@ func mapNode(n *Node, f func(*Node) *Node) *Node {
 	if n == nil {
 		return f(nil)
 	}
-	m := &Node{Leaf: n.Leaf, Kind: n.Kind, Keys: n.Keys}
+	m := &Node{Leaf: n.Leaf, Kind: n.Kind, Keys: n.Keys, Share: n.Share}
 	for _, k := range n.Kids {
 		m.Kids = append(m.Kids, mapNode(k, f))
 	}
 	return f(m)
+}
+
+// unshare: every position gets its own object (is the aliasing essential for the failure?)
+func unshare(n *Node) *Node {
+	if n != nil {
+		n.Share = 0
+	}
+	return n
+}
+
+// normShare drops share marks that occur only once in the tree (an alias of nothing).
+func normShare(root *Node) *Node {
+	counts := map[int]int{}
+	var walk func(n *Node)
+	walk = func(n *Node) {
+		if n == nil {
+			return
+		}
+		if n.Share != 0 {
+			counts[n.Share]++
+		}
+		for _, k := range n.Kids {
+			walk(k)
+		}
+	}
+	walk(root)
+	single := false
+	for _, c := range counts {
+		if c < 2 {
+			single = true
+		}
+	}
+	if !single {
+		return root
+	}
+	return mapNode(root, func(n *Node) *Node {
+		if n != nil && n.Share != 0 && counts[n.Share] < 2 {
+			n.Share = 0
+		}
+		return n
+	})
 }
 
 func leavesToOne(n *Node) *Node {
@@ -754,7 +795,7 @@ func candidates(c *Case) []func() *Case {
 		})
 	}
 	units := func(u jm.Str) { with(func(d *Case) { d.Units = u }) }
-	value := func(f func() *Node) { with(func(d *Case) { d.Value = f() }) }
+	value := func(f func() *Node) { with(func(d *Case) { d.Value = normShare(f()) }) }
 	switch c.Op {
 	case "parse", "canon":
 		if c.Op == "parse" {
@@ -848,7 +889,7 @@ func candidates(c *Case) []func() *Case {
 			}
 		}
 		// bulk rewrites: all leaves -> 1, each kind of leaf -> 1, all holes -> 1, all objects -> arrays
-		bulk := []func(n *Node) *Node{leavesToOne}
+		bulk := []func(n *Node) *Node{unshare, leavesToOne}
 		kinds := map[string]bool{}
 		c.Value.kinds(kinds)
 		var names []string
@@ -984,6 +1025,18 @@ func nodeCandidates(root *Node) []func() *Node {
 					break
 				}
 				name := it.name
+				if share := n.Share; share != 0 {
+					// a shared leaf is switched in all its positions, keeping the aliasing
+					res = append(res, func() *Node {
+						return mapNode(root, func(m *Node) *Node {
+							if m != nil && m.Share == share {
+								return &Node{Leaf: name, Share: share}
+							}
+							return m
+						})
+					})
+					continue
+				}
 				replace(p, func(*Node) *Node { return leafNode(name) })
 			}
 		}
@@ -1097,13 +1150,13 @@ func run(r *core.Run) {
 	type step = func(*core.Run, *sigCache, map[string]interface{}) bool
 	// every family at the quick bounds first (simplest first); the thorough tier then re-runs the families with
 	// their extended bounds, the open-ended ones last, so that a deadline cut never starves a whole family
-	levels := [][]step{{runCorpus, runStringifyA1, runStringifyB, runParseGrammar, runStringifyA2, runWhitespace, runEdits, runNesting, runSymbols, runStringifyDeep}}
+	levels := [][]step{{runCorpus, runStringifyA1, runStringifyAlias, runStringifyB, runParseGrammar, runStringifyA2, runWhitespace, runEdits, runNesting, runSymbols, runStringifyDeep}}
 	if r.Thorough() {
 		levels = append(levels, []step{runWhitespace, runEdits, runNesting, runStringifyA2, runStringifyB, runSymbols, runStringifyDeep, runParseGrammar})
 	}
 	if only := os.Getenv("VERIF_C19_ONLY"); only != "" {
 		// development aid: run selected thorough extensions only, e.g. VERIF_C19_ONLY=A2,deep
-		names := map[string]step{"A1": runStringifyA1, "A2": runStringifyA2, "B": runStringifyB, "deep": runStringifyDeep, "grammar": runParseGrammar, "ws": runWhitespace, "edits": runEdits, "nesting": runNesting, "symbols": runSymbols}
+		names := map[string]step{"S": runStringifyAlias, "A1": runStringifyA1, "A2": runStringifyA2, "B": runStringifyB, "deep": runStringifyDeep, "grammar": runParseGrammar, "ws": runWhitespace, "edits": runEdits, "nesting": runNesting, "symbols": runSymbols}
 		var sel []step
 		for _, n := range strings.Split(only, ",") {
 			sel = append(sel, names[n])
